@@ -69,8 +69,13 @@ def errors(ctx):
             checks.append((Case(cmd, {}, [x, y]), "MixedArrayShapes"))
             if eems.COMMANDS[cmd][1] == "list":
                 checks.append((Case(cmd, {}, [x, x.copy(), y]), "MixedArrayShapes"))
+                # several inputs of several wrong shapes, the wrong ones first / last / repeated
+                z = eems.rand_array(rng, rng.choice([(5,), (2, 1), (1, 1, 2)]), float)
+                checks.append((Case(cmd, {}, [x, y, z]), "MixedArrayShapes"))
+                checks.append((Case(cmd, {}, [x, z, x.copy(), y, y.copy()]), "MixedArrayShapes"))
         for cmd in ["WeightedSum", "WeightedMean"]:
             checks.append((Case(cmd, {"Weights": [1, 2]}, [x, y]), "MixedArrayShapes"))
+            checks.append((Case(cmd, {"Weights": [1, 2, 0.5]}, [x, y, eems.rand_array(rng, (5,), float)]), "MixedArrayShapes"))
     for cmd in ["Sum", "Multiply", "Minimum", "Maximum", "Mean"]:
         checks.append((Case(cmd, {}, []), "EmptyInputs"))
     for cmd in ["WeightedSum", "WeightedMean"]:
@@ -89,6 +94,49 @@ def errors(ctx):
             ctx.fail("%s: str(%s) raised %s" % (case.cmd, want, out.get("str_error")), case.describe())
 
 
+def unsigned(ctx):
+    """unsigned integer arrays (what NetCDF EEMSRead delivers for DataType = 'Positive Integer'): every command must compute the same
+    numbers as on the signed arrays.  The one known deviation (A - B wraps where A < B) is listed in known_findings.json by its witness."""
+    # the listed witness itself
+    a = numpy.ma.array(numpy.array([2, 3, 5], dtype=numpy.uint64))
+    b = numpy.ma.array(numpy.array([3, 3, 9], dtype=numpy.uint64))
+    out = eems.run_impl(Case("AMinusB", {}, [a, b]))
+    got = out["vis"][3] if out["status"] == "ok" else eems.impl_summary(out)
+    ctx.count("known_finding_witnesses")
+    if got != [-1, 0, -4] and got != [-1.0, 0.0, -4.0]:
+        ctx.fail("AMinusB([2, 3, 5], [3, 3, 9]) on unsigned 64-bit arrays = %r, expected [-1, 0, -4]" % (got,), {"A": "[2,3,5] uint64", "B": "[3,3,9] uint64"},
+                 finding="C07-F18-unsigned-wrap")
+    else:
+        ctx.notes.setdefault("known_findings_resolved", []).append("C07-F18-unsigned-wrap")
+    rng = ctx.rng
+    for i in range(ctx.budget(60, 1500)):
+        cmd = rng.choice(eems.ARITH)
+        n = {"one": 1, "ab": 2}.get(eems.COMMANDS[cmd][1], rng.choice([1, 2, 3]))
+        shape = eems.rand_shape(rng)
+        ins = [eems.rand_array(rng, shape, int, [0, 1, 2, 3, 5, 7]) for _ in range(n)]
+        params = eems.gen_params(rng, cmd, ins, "valid")
+        signed = Case(cmd, params, ins)
+        dts = [rng.choice([numpy.uint8, numpy.uint16, numpy.uint32, numpy.uint64]) for _ in ins]
+        uns = Case(cmd, params, [numpy.ma.array(numpy.where(numpy.ma.getmaskarray(a), 0, numpy.ma.getdata(a)).astype(dt), mask=numpy.ma.getmaskarray(a).copy())
+                                 for a, dt in zip(ins, dts)])
+        o1, o2 = eems.run_impl(signed), eems.run_impl(uns)
+        ctx.case("unsigned " + uns.line() + repr([str(d) for d in dts]), sample=None)
+        ctx.count("c07_unsigned_cases")
+        if o1["status"] != "ok":
+            continue
+        if o2["status"] != "ok":
+            ctx.fail("%s fails on unsigned integer arrays: %s" % (cmd, eems.impl_summary(o2)), dict(uns.describe(), dtypes=[str(d) for d in dts]))
+            continue
+        v1, v2 = o1["vis"][3], o2["vis"][3]
+        bad = [k for k, (a, b) in enumerate(zip(v1, v2)) if (a is None) != (b is None) or (a is not None and abs(float(a) - float(b)) > 1e-9 * max(1.0, abs(float(a))))]
+        if bad:
+            k = bad[0]
+            wrap = cmd == "AMinusB" and all(v1[j] is not None and v1[j] < 0 for j in bad) and all(d == dts[0] or True for d in dts) and \
+                all(numpy.dtype(d).kind == "u" for d in dts)
+            ctx.fail("%s on unsigned integer arrays %s: cell %d is %r, on the same signed values %r" % (cmd, [numpy.dtype(d).name for d in dts], k, v2[k], v1[k]),
+                     dict(uns.describe(), dtypes=[str(numpy.dtype(d)) for d in dts]), finding="C07-F18-unsigned-wrap" if wrap else None)
+
+
 def run(ctx):
     ctx.check_proofs(["MPilot.Props.C07"])
     model = common.Model()
@@ -100,6 +148,7 @@ def run(ctx):
     eems.run_stream(ctx, model, gen_random(ctx, eems.ARITH, ctx.budget(20, 800), "valid"), "exec:arith:random", on_result=orc)
     eems.run_stream(ctx, model, gen_random(ctx, eems.ARITH, ctx.budget(8, 300), "wild"), "exec:arith:errors", on_result=orc)
     errors(ctx)
+    unsigned(ctx)
     numeric.focus_search(ctx, model, lambda cmds, f: gen_random(ctx, cmds, 20 * f, "valid"), orc)
     return ctx.finish(
         rule="(a) every int/float mix of 1..3 (thorough: 5) inputs per command; (b) random 1-5 input cases over the lattice "
